@@ -24,13 +24,14 @@ Trace == ndJsonDeserialize(TraceFile)
 
 VARIABLES l,       \* next trace line
           lost,    \* the consumer of this stream is no longer followed (a batch outside the domain was consumed)
-          kh       \* <<signal, payload type>> -> the schema keys that record builder has used, in order (without repetitions)
-tvars == <<vars, l, lost, kh>>
+          kh,      \* <<signal, payload type>> -> the schema keys that record builder has used, in order (without repetitions)
+          opens    \* IPC readers the Consume in progress has tried to open (what `arrow_schema_resets` counts)
+tvars == <<vars, l, lost, kh, opens>>
 
 Ev == Trace[l]
 IsEv(e) == l <= Len(Trace) /\ Trace[l].ev = e
 
-TInit == Init /\ l = 1 /\ lost = FALSE /\ kh = <<>>
+TInit == Init /\ l = 1 /\ lost = FALSE /\ kh = <<>> /\ opens = 0
 
 \* a new stream: fresh producer and consumer
 TBegin ==
@@ -38,7 +39,7 @@ TBegin ==
   /\ pstreams' = {} /\ nextId' = 0 /\ batchId' = 0 /\ wire' = <<>> /\ orig' = <<>> /\ bsig' = Ev.sig /\ phase' = "idle"
   /\ cstreams' = {} /\ pos' = 1 /\ got' = <<>> /\ res' = "none" /\ nfaults' = 0 /\ altered' = FALSE /\ gapped' = {}
   /\ judged' = TRUE /\ ann' = <<>> /\ retiredIds' = {}
-  /\ l' = l + 1 /\ lost' = FALSE /\ kh' = <<>>
+  /\ l' = l + 1 /\ lost' = FALSE /\ kh' = <<>> /\ opens' = 0
 
 \* the key of the stream producer that wrote payload i: the entry of the logged projection with its schema id
 KeyOf(id) == LET hit == {k \in 1..Len(Ev.ps) : Ev.ps[k][2] = id} IN IF hit = {} THEN "?" ELSE Ev.ps[CHOOSE k \in hit : TRUE][1]
@@ -78,7 +79,7 @@ TEncodeOk ==
            IN /\ \A b \in builders : Old(b) # <<>> /\ Old(b)[Len(Old(b))] # KeyNow(b) => \A j \in 1..Len(Old(b)) : Old(b)[j] # KeyNow(b)
               /\ kh' = [b \in DOMAIN kh \cup builders |-> IF b \in builders THEN Step(b) ELSE kh[b]]
   /\ batchId' = batchId + 1 /\ bsig' = Ev.sig /\ phase' = "flight" /\ pos' = 1 /\ got' = <<>> /\ res' = "none"
-  /\ UNCHANGED <<cstreams, nfaults, altered, lost>>
+  /\ UNCHANGED <<cstreams, nfaults, altered, lost, opens>>
   /\ l' = l + 1
 
 \* a refused encode leaves the stream producers as they were (the record builders are not modelled here)
@@ -87,7 +88,7 @@ TEncodeErr ==
   /\ Ev.oc = "error" => {<<x.key, x.id, x.pt>> : x \in pstreams} = {<<Ev.ps[k][1], Ev.ps[k][2], Ev.ps[k][3]>> : k \in 1..Len(Ev.ps)}
   /\ Ev.oc = "error" /\ Len(Ev.st) = 5 => Ev.st = <<0, 0, 0, 0, 0>>      \* ... and counts nothing
   /\ gapped' = gapped \cup Discard /\ phase' = "idle" /\ res' = "none"
-  /\ UNCHANGED <<pstreams, nextId, batchId, wire, orig, bsig, cstreams, pos, got, nfaults, altered, judged, ann, retiredIds, lost, kh>>
+  /\ UNCHANGED <<pstreams, nextId, batchId, wire, orig, bsig, cstreams, pos, got, nfaults, altered, judged, ann, retiredIds, lost, kh, opens>>
   /\ l' = l + 1
 
 \* the batch as handed to the consumer: the logged payload list, each entry the producer's payload `orig`
@@ -102,8 +103,15 @@ TDeliver ==
   /\ wire' = Handed /\ altered' = (altered \/ Handed # orig) /\ phase' = "consume"
   /\ judged' = (judged /\ ~(altered /\ Handed # orig))
   /\ UNCHANGED <<pstreams, nextId, batchId, orig, bsig, cstreams, pos, got, res, nfaults, gapped, ann, retiredIds, l, lost, kh>>
+  /\ opens' = 0
 
-TSilent == ~lost /\ (ConsumeStep \/ Finish) /\ UNCHANGED <<l, lost, kh>>
+\* the iteration about to run finds no opened reader for its payload: it calls ipc.NewReader (and counts a schema reset)
+OpensNow == LET hit == {x \in cstreams : x.id = wire[pos].id} IN hit = {} \/ \E x \in hit : x.st = "unopened"
+
+TSilent == /\ ~lost
+           /\ \/ ConsumeStep /\ opens' = opens + (IF OpensNow THEN 1 ELSE 0)
+              \/ Finish /\ opens' = opens
+           /\ UNCHANGED <<l, lost, kh>>
 
 \* Ev.n: the number of telemetry items the consumer returned (0 for a main record without rows)
 Matches == IF Ev.oc = "ok"
@@ -119,16 +127,23 @@ TResult ==
   /\ IF judged
      THEN /\ Matches
           /\ Ev.oc # "panic" => {Proj(x) : x \in cstreams} = {<<Ev.cs[k][1], Ev.cs[k][2], Ev.cs[k][3]>> : k \in 1..Len(Ev.cs)}
+          \* the consumer's own counters (when recorded): `arrow_batch_records` counts the records Consume had read when it
+          \* returned, `arrow_schema_resets` the readers it tried to open
+          \* (a record batch read out of sequence may also be refused by the reader itself, which the model leaves to
+          \* the end of the call: then fewer records were counted)
+          /\ Ev.oc # "panic" /\ Len(Ev.st) = 2 =>
+                /\ IF \A i \in 1..Len(got) : got[i].good THEN Ev.st[1] = Len(got) ELSE Ev.st[1] <= Len(got)
+                /\ IF \A i \in 1..Len(got) : got[i].good THEN Ev.st[2] = opens ELSE Ev.st[2] <= opens
           /\ lost' = (Ev.oc = "panic")
      ELSE lost' = TRUE
   /\ res' = "none" /\ l' = l + 1
-  /\ UNCHANGED <<pstreams, nextId, batchId, wire, orig, bsig, phase, cstreams, pos, got, nfaults, altered, gapped, judged, ann, retiredIds, kh>>
+  /\ UNCHANGED <<pstreams, nextId, batchId, wire, orig, bsig, phase, cstreams, pos, got, nfaults, altered, gapped, judged, ann, retiredIds, kh, opens>>
 
 \* once lost, the consumer's events are only counted
 TSkip ==
   /\ IsEv("Decode") /\ lost
   /\ phase' = "idle" /\ res' = "none" /\ l' = l + 1
-  /\ UNCHANGED <<pstreams, nextId, batchId, wire, orig, bsig, cstreams, pos, got, nfaults, altered, gapped, judged, ann, retiredIds, lost, kh>>
+  /\ UNCHANGED <<pstreams, nextId, batchId, wire, orig, bsig, cstreams, pos, got, nfaults, altered, gapped, judged, ann, retiredIds, lost, kh, opens>>
 
 TNext == TBegin \/ TEncodeOk \/ TEncodeErr \/ TDeliver \/ TSilent \/ TResult \/ TSkip
 TSpec == TInit /\ [][TNext]_tvars
